@@ -865,6 +865,12 @@ func (e *Engine) evalLoopClauses(st *State, fr *Frame, cls []Clause, iterKey str
 						}
 					}
 				}
+				// loop-carried variables as of that state (athead(x) is x at the head of the iteration)
+				if ph, ok := in.(*ssa.Phi); ok && ph.Comment != "" && isLoopHeader(b) {
+					if v, ok := s.rregs(fr)[ph]; ok {
+						m[ph.Comment] = v
+					}
+				}
 			}
 		}
 		return m
